@@ -228,7 +228,7 @@ def harness(ctx, case):
     if lx.unmodelled:
         raise RuntimeError('shell oracle: ' + '; '.join(lx.unmodelled))
 
-    def report(key, what, extra=None):
+    def report(key, what, extra=None, prio=5):
         m = ctx.model(extra)
         if conv in ('env', 'flags'):
             lits = ', '.join('%s = %s' % (NAMES[i], ucg_literal(m, k, 'f%d' % i, L, ctx)) for i, k in enumerate(kinds))
@@ -247,9 +247,24 @@ def harness(ctx, case):
             text = 'let v = {%s};' % ', '.join(parts)
         out['violations'].append({'key': key, 'what': what + ' — e.g. ' + text,
                                   'case': {'kind': 'convert', 'fmt': {'env': 'env', 'flags': 'flags', 'exec': 'exec'}[conv], 'text': text},
-                                  'conv': conv, 'kinds': kinds})
+                                  'conv': conv, 'kinds': kinds, 'prio': prio})
 
     for kind_, desc, neg in lx.violations:
+        if neg is not None and kind_ in ('special-in-double-quotes', 'quote-in-single-quotes'):
+            # candidate models: steer the offending byte to each special character (a lone `$` is not an expansion)
+            syms = [x for x in items if is_sym(x)]
+            for ch in (0x22, 0x27, 0x60, 0x5c, 0x24):
+                for sv_ in syms:
+                    extra = z3.And(neg, sv_ == ch)
+                    idx = [k for k, x in enumerate(items) if x is sv_][0]
+                    if ch == 0x24 and idx + 1 < len(items) and is_sym(items[idx + 1]):
+                        extra2 = z3.And(extra, items[idx + 1] == ord('x'))      # `$x`: an expansion, not a lone dollar
+                        if ctx.feasible(extra2):
+                            report('C08:%s:%s' % (conv, kind_), desc, extra2, prio=0)
+                            break
+                    if ctx.feasible(extra):
+                        report('C08:%s:%s' % (conv, kind_), desc, extra, prio=1 if ch != 0x24 else 3)
+                        break
         report('C08:%s:%s' % (conv, kind_), desc, neg)
     if lx.violations:
         return out
